@@ -463,8 +463,11 @@ func HarnessC01_mapmap() {
 		c01Check(parent, child)
 		return
 	}
-	parent := ndMap(2, keysAB, 1, ndParentLeaf)
-	child := ndChildMap(2, 1)
+	// thorough: a parent of depth <= 2 (maps in maps) under the full
+	// depth-1 child family; deeper children are HarnessC01_spine's subject,
+	// lists and their directive entry forms HarnessC01_listlist/listpair's
+	parent := ndMap(2, keysAB, 0, ndParentLeaf)
+	child := ndChildMap(1, 0)
 	c01Check(parent, child)
 }
 
